@@ -25,7 +25,7 @@ from vlib.runner import Sub, Violation, require
 from liesel.goose.epoch import EpochConfig, EpochType
 
 PROPERTY = "C06"
-RULE = ("cases = (target family, dimension 1-5, key split and listing order, kernel RW | IWLS | IWLS with user information | MH with drift "
+RULE = ("cases = (target family, dimension 1-5 or 12 / 20 / 28, key split and listing order, kernel RW | IWLS | IWLS with user information | MH with drift "
         "proposal, step size 0.01-2, current point bulk / tail, seed) x 256 PRNG keys; non-trivial = some transition with 0.01 < a* < 0.99 and "
         "|grad log pi(x)| > 0.1; distinct = SHA-1 of the case")
 ASSUMPTIONS = [
@@ -52,7 +52,7 @@ def gen():
 
     @st.composite
     def g(draw):
-        D = draw(st.integers(1, 5))
+        D = draw(st.one_of(st.integers(1, 5), st.integers(1, 5), st.integers(1, 5), st.sampled_from([12, 20, 28])))   # also regression-sized blocks
         nk = draw(st.integers(1, min(3, D)))
         cuts = sorted(draw(st.lists(st.integers(1, D - 1), min_size=nk - 1, max_size=nk - 1, unique=True))) if nk > 1 else []
         sizes = [b - a for a, b in zip([0] + cuts, cuts + [D])]
@@ -63,7 +63,7 @@ def gen():
             names.append(draw(st.sampled_from(cand)))
         order = draw(st.permutations(list(range(len(names)))))
         return {"kind": draw(st.sampled_from(["gauss", "poisson", "logistic", "quartic"])), "D": D, "sizes": sizes, "names": names, "order": list(order),
-                "kernel": draw(st.sampled_from(["rw", "iwls", "iwls", "iwls_user", "mh"])), "step": draw(st.sampled_from([0.01, 0.05, 0.2, 0.5, 1.0, 2.0])),
+                "kernel": draw(st.sampled_from(["rw", "iwls", "iwls", "iwls_user", "mh"])), "step": draw(st.sampled_from([0.01, 0.05, 0.2, 0.5, 1.0, 2.0] if D <= 5 else [0.01, 0.01, 0.05, 0.2])),    # (large blocks need small steps to move at all)
                 "point": draw(st.sampled_from(["bulk", "bulk", "tail"])), "seed": draw(st.integers(0, 10**6)), "key_seed": draw(st.integers(0, 2**30))}
 
     return g()
@@ -162,6 +162,11 @@ def oracle(c):
     # for the remaining keys the proposal is not observable: there the real run must report acceptance probability 0 and stay put
     captured = np.asarray(moved_f) != 0
     require(bool(np.all((acc[~captured] == 0.0) & (moved[~captured] == 0))), "zero-density-proposal-not-rejected", det)
+    if c["kind"] != "poisson":
+        # Gaussian, quartic and logistic targets have a finite positive density, gradient and positive definite information at every finite
+        # point: no proposal can be unobservable there and no ratio undefined (only the Poisson target can overflow to zero density)
+        require(bool(np.all(captured) and np.all(code == 0)), "undefined-ratio-on-an-everywhere-positive-target:" + c["kernel"],
+                lambda: f"{int((~captured).sum())} of {NKEYS} proposals rejected by the forced-accept twin, error codes {np.unique(code).tolist()}; {det()}")
     if int(captured.sum()) < NKEYS // 4:
         return {"nt": False, "cls": ["mostly-zero-density-proposals"], "weight": NKEYS}     # e.g. huge steps on a Poisson target: nothing to compare
     # self-check of the capture: accepted real transitions return the captured proposal bit for bit, rejected ones the current point
@@ -242,6 +247,78 @@ def oracle(c):
                                     c["point"], f"step{c['step']}"], "weight": NKEYS, "extra": {"max_err_over_tol": worst, "max_abs_z": rep["max_abs_z"]}}
 
 
+# ------------------------------------------------------------------------------ current point of zero density ("for all current points")
+_Z = {}
+
+
+def _zero_setup(kind):
+    if kind in _Z:
+        return _Z[kind]
+
+    def log_prob(s):
+        x = s["x"]
+        return jnp.where(x > 0, 2.0 * jnp.log(jnp.where(x > 0, x, 1.0)) - x, -jnp.inf) - 0.5 * jnp.sum(s["b"] ** 2)
+
+    model = gs.DictInterface(log_prob)
+    if kind == "rw":
+        ker = gs.RWKernel(["x"], initial_step_size=1.0)
+    else:
+        def proposal(key, state, step):
+            z = jax.random.normal(key)
+            x = state["x"]
+            new = x + step * (DELTA + z)
+            return gs.MHProposal({"x": new}, -0.5 * ((x - new) / step - DELTA) ** 2 + 0.5 * ((new - x) / step - DELTA) ** 2)
+
+        ker = gs.MHKernel(["x"], proposal, initial_step_size=1.0)
+    ker.set_model(model)
+    epoch = EpochConfig(EpochType.BURNIN, 10, 1, None).to_state(1, 1)
+
+    def one(key, x, step):
+        state = {"x": x, "b": jnp.array([0.5, -0.5], dtype=jnp.float32)}
+        ks = ker.init_state(key, state)
+        ks.step_size = step
+        out = ker.transition(key, ks, state, epoch)
+        return out.info.acceptance_prob, out.info.position_moved, out.info.error_code, out.model_state["x"]
+
+    _Z[kind] = jax.jit(jax.vmap(one, in_axes=(0, None, None)))
+    return _Z[kind]
+
+
+def gen_zero():
+    from hypothesis import strategies as st
+    from vlib.gens import f32
+
+    return st.fixed_dictionaries({"kernel": st.sampled_from(["rw", "mh"]), "x": f32(-2.0, -0.05), "step": st.sampled_from([0.5, 1.0, 2.5]),
+                                  "key_seed": st.integers(0, 2**30)})
+
+
+def oracle_zero(c):
+    """pi(x) = 0 at the current point: a proposal inside the support has ratio +inf (a* = 1, always accepted); one outside has an undefined ratio
+    (0/0: reported as a rejection with a = 0)"""
+    from scipy import stats as sps
+
+    f = _zero_setup(c["kernel"])
+    x0, s = float(np.float32(c["x"])), float(c["step"])
+    p_in = float(sps.norm.cdf(x0 / s + (DELTA if c["kernel"] == "mh" else 0.0)))
+    seen = {}
+
+    def stat(n, subseed):
+        keys = jax.random.split(jax.random.PRNGKey((c["key_seed"] + 104729 * subseed) % 2**31), n)
+        acc, moved, code, xo = (np.asarray(a) for a in f(keys, jnp.float32(x0), jnp.float32(s)))
+        mv = moved != 0
+        require(bool(np.all((acc[mv] == 1.0) & (xo[mv] > 0))), "zero-density-current-point:accepted-move-without-a=1-or-outside-support", lambda: f"{c}")
+        require(bool(np.all((acc[~mv] == 0.0) & (xo[~mv] == np.float32(x0)))), "zero-density-current-point:rejection-with-a>0",
+                lambda: f"acc of rejected transitions {np.unique(acc[~mv])[:5].tolist()}; {c}")
+        seen["k"], seen["n"] = int(mv.sum()), n
+        return {"moves-as-often-as-proposals-fall-into-the-support": stats.z_binom(int(mv.sum()), n, p_in)}
+
+    sig, rep = stats.decide(stat, 2048, 1)
+    if sig:
+        raise Violation(f"zero-density-current-point:acceptance-probability-not-one-for-proposals-in-the-support:{c['kernel']}",
+                        f"moved {seen.get('k')} of {seen.get('n')}, P(proposal in support) = {p_in:.4f}; {rep}; {c}")
+    return {"nt": bool(0.02 < p_in < 0.98), "cls": [c["kernel"], "zero-density-start"], "weight": 2048, "extra": {"max_abs_z": rep["max_abs_z"]}}
+
+
 def run_keys_forced_only(ker, state, keys, step):
     real, forced = run_keys(ker, state, keys, step)
     return real, forced
@@ -269,4 +346,6 @@ def _mvn_logpdf(x, mean, prec):
 SUBS = [
     Sub("detailed_balance", oracle, gen=gen, n={"quick": 64, "thorough": 1500}, shrink_calls=24, min_per_shard=3,
         what="reported acceptance probability vs float64 MH ratio for every transition (256 keys per case); proposal law"),
+    Sub("zero_density_current", oracle_zero, gen=gen_zero, n={"quick": 16, "thorough": 300}, shrink={"quick": False, "thorough": False}, min_per_shard=2,
+        what="RW / MH from a current point of zero density: proposals inside the support are accepted with a = 1, others rejected with a = 0"),
 ]
